@@ -35,12 +35,21 @@ def bounded_module(prop):
         raise
 
 
+def bounded_replay(mod, prop, check, case):
+    if '.corpus_' in check:
+        from bounded import corpus
+        return corpus.replay(prop, case)
+    return mod.replay(check, case)
+
+
 def run_bounded(prop, tier, seed, findings, only=None):
     mod = bounded_module(prop)
     if mod is None: return []
     open_f = {f['id']: f for f in findings if f.get('status') == 'open' and f.get('property') == prop and f.get('kind') == 'B'}
     try:
         out = mod.run(tier, seed, open_f)
+        from bounded import corpus
+        if prop in corpus.FAMILY: out = list(out) + [corpus.family(prop, tier, seed, open_f)]
     except Exception:
         return [dict(name=f'{prop}.bounded', crash=traceback.format_exc()[-2500:], cases=0, failures=[], known={}, scope='', exhaustive=False)]
     if only: out = [b for b in out if only in b['name']]
@@ -137,7 +146,7 @@ def finish(prop, tier, seed, results, bounded, findings, wall, write=True):
                 if t and t._conc: still = not t._conc(dict(f['witness']))['ok']
             else:
                 mod = bounded_module(prop)
-                if mod: still = not mod.replay(f['check'], f['witness'])['ok']
+                if mod: still = not bounded_replay(mod, prop, f['check'], f['witness'])['ok']
         except Exception as e:
             still = None; f = dict(f, replay_error=str(e)[:200])
         if still or still is None:
@@ -203,7 +212,7 @@ def replay_file(path):
         r = t._conc(dict(v['inputs']))
     else:
         mod = bounded_module(v['property'])
-        r = mod.replay(v['check'], v['case'])
+        r = bounded_replay(mod, v['property'], v['check'], v['case'])
     print(json.dumps(r, indent=1, default=str))
     print('REPLAY', 'still fails' if not r['ok'] else 'passes now')
     return 1 if not r['ok'] else 0
